@@ -208,9 +208,14 @@ func verifyFuncOnce(w *World, key string, opts VerifyOpts) (res *FuncResult) {
 		}
 		was := sx("select", x.get(fr.entry, "lock"), mu)
 		if len(own) > 0 {
-			was = ite(or(own...), "0", was)
+			// (the allocation may lie on another path than this return: only a location at or above the entry
+			// allocation counter is one of this call's own objects)
+			was = ite(and(or(own...), sx(">=", sx("ref", mu), x.get(fr.entry, "alloc"))), "0", was)
 		}
-		g := eq(sx("select", x.get(ret.st, "lock"), mu), was)
+		now := sx("select", x.get(ret.st, "lock"), mu)
+		// balanced: the state it had on entry -- or free, for the mutex of an object that did not exist on entry
+		// (allocated by this function or by a callee)
+		g := or(eq(now, was), and(sx(">=", sx("ref", mu), x.get(fr.entry, "alloc")), eq(now, "0")))
 		if hasOpt(ct, "lock-unbalanced") {
 			break
 		}
